@@ -69,6 +69,17 @@ PROPS = {
              'case_scale': {'B_SE3_SO2_R3_SE2_SE23_r': 0.2, 'B_SGal3_SO3_r': 0.3, 'SGal3r': 0.5, 'SE_2_3r': 0.5}},
         ],
     },
+    'C08': {
+        'rule': 'operation histories of 1..2000 generated steps over 16 opcodes (exp, compose, inverse, between, +=, lplus, X*=X, three interpolations, averages, cast round trip, Random, role rotation, reconstruction from coefficients, mixed product) replayed cyclically for up to 1e5 (thorough 1e6) further steps, from three starting elements whose rotation data sits at +-0.9 of the acceptance threshold; non-trivial: a compose entered the renormalisation branch and >= 3 opcodes',
+        'assumptions': ['the acceptance threshold is read from the library (manif::Constants<Scalar>::eps)', 'translations are kept below 1e12 by the harness (re-centring is counted) so that overflow of a growing translation is not reported as a defect',
+                        'two builds: assertions enabled (any exception is a violation) and -DNDEBUG'],
+        'stages': [
+            {'src': 'C08.cpp', 'configs': ['SO2d', 'SE2d', 'SO3d', 'SE3d', 'SE_2_3d', 'SGal3d', 'SO2f', 'SE2f', 'SO3f', 'SE3f', 'SGal3f', 'B_SE3_SO2_R3_d', 'B_SE3_SO2_R3_f'],
+             'cases': {'quick': 300, 'thorough': 6000}, 'shards': {'quick': 1, 'thorough': 2}, 'max_size': 100},
+            {'src': 'C08.cpp', 'configs': ['SE2d', 'SO3d', 'SE3d', 'SGal3d', 'SE3f', 'SO2f'], 'tag': '-ndebug', 'defs': ['-DNDEBUG'],
+             'cases': {'quick': 200, 'thorough': 4000}, 'shards': {'quick': 1, 'thorough': 1}, 'max_size': 100},
+        ],
+    },
     'C09': {
         'rule': 'every operation with optional outputs is evaluated under ALL subsets of its outputs (enumerated), with outputs bound to blocks at generated offsets of larger pre-filled matrices, re-evaluated after generated unrelated library activity, and in aliased form; non-trivial: X != identity and t != 0',
         'assumptions': ['bit-identity is demanded only between evaluations of the same call on the same operand kind in one process (harness built with -ffp-contract=off)',
